@@ -444,11 +444,18 @@ def _replay_once(case):
     if kind in ('unexpected_refusal', 'exception'):
         return False, 'build succeeded'
     if kind == 'documented_variable_missing':
-        from .core import Part
-        try:
-            check_point(h, p, Z3Alg(), Part())
-        except KeyError as e:
-            return True, 'all_variable_labels()=%s: %s' % (list(F.all_variable_labels())[:12], e)
+        alg = PyAlg([False] * n)          # solver-free: evaluate the documented meaning on one assignment, names looked up as usual
+        for attr in ('spec', 'spec_alternatives', 'schemas'):
+            f = getattr(h, attr, None)
+            if f is None:
+                continue
+            try:
+                f(alg, p, F)
+            except KeyError as e:
+                if 'documented name' in str(e):
+                    return True, 'all_variable_labels()=%s: %s' % (list(F.all_variable_labels())[:12], e)
+            except Exception:  # noqa
+                pass
         return False, 'the documented variables are all there'
     n = F.number_of_variables()
     rows = rows_of(F)
